@@ -196,6 +196,24 @@ def exc_signature(e):
         type(e).__name__, str(e)[:200], ("%s:%s" % (os.path.basename(inner.filename), inner.lineno)) if inner else "?")
 
 
+class HarnessFault(Exception):
+    """an exception that a harness frame raised while handling library results: no verdict about the property"""
+
+
+def guard(exc):
+    """First statement of every `except Exception as exc` handler of a property module that turns an exception
+    into a violation: only exceptions raised by the LIBRARY (innermost relevant traceback frame inside the acnportal
+    package) are verdicts. One raised by a harness frame (the harness touching a private attribute that a refactoring
+    renamed, a bug of the harness) becomes a HarnessFault -> HARNESS-ERROR, exit 3, never a VIOLATION line.
+    Exception classes defined by the harness itself (watchdog, injected crash) pass: their callers know them."""
+    if type(exc).__module__.startswith("mc.") or isinstance(exc, HarnessFault):
+        if isinstance(exc, HarnessFault):
+            raise exc
+        return
+    if exc_signature(exc)[0] == "HARNESS-ERROR":
+        raise HarnessFault("%s: %s" % (type(exc).__name__, exc)) from exc
+
+
 def _chunks(items, n):
     for i in range(0, len(items), n):
         yield items[i : i + n]
